@@ -3,7 +3,11 @@
 #![allow(dead_code)]
 
 mod common;
+mod dataset;
+mod engine;
+mod graph_adapter;
 mod props;
+mod schema_model;
 mod values;
 
 use common::{machinery, Ctx, Tier};
